@@ -28,6 +28,10 @@ CLAIMS = {
    text="Static decision of the configuration precedence: statement-order rules in main and gen (default -> read_file -> read_cli_settings -> #[diplomat::config] scan -> get_overridden -> consumers, nothing set afterwards, consumers use the overridden value), last-write-wins totality of every leaf setter arm (every path stores the incoming value into the field named by the key; only a type check of the value may skip; current state never consulted), routing of language prefixes and the override filter, alias targets reach their overrides (found py-nanobind, repaired by a fix: commit), snake-casing of every key part that reaches set. Exhaustive over the finite set of keys and sources because it is a property of the program text, not of particular assignments.",
    note="toml/heck/clap are trusted; the serde Deserialize path of Config is unused by main and not analysed.",
    technique="HIR statement-order and path-totality rules over setters"),
+ "C13": dict(
+   text="Static decision of the attribute-condition machinery: the evaluator's decision table over all 7 formula constructors with per-arm semantic checks (negation, first-true/first-false loops, constant true, is_backend, is_name_value with argument order), exact-equality is_backend, the 24-cell `supports =` table (each literal returns the flag of the same name, all flags covered), target->attr_support/run pairing in gen, parser keyword->constructor agreement, `disable` tested before lowering each method and first in every backend loop over types/traits, the proc macro never reads backend-conditional attributes (so exports cannot depend on them), `disable` inheritance and the parent-attribute source used by each type lowerer. Exhaustive over formula constructors and flags because the tables are finite.",
+   note="Does not prove byte-identity of other backends' outputs; that follows from these rules plus C14 but is a behavioural statement.",
+   technique="decision tables + HIR arm-semantics rules + who-may-read rule on the macro crate"),
 }
 NOT_YET = "rule module not built yet in this round (see DESIGN.md section 4 for the planned static rules)"
 
